@@ -91,6 +91,29 @@ inline Bytes phrase_of_len(size_t n) {
 }
 inline Bytes phrase(size_t maxlen = 511) { return phrase_of_len(phrase_len(maxlen)); }
 
+// Phrases on which bcrypt's $2a$ "safety" deviation and the $2x$ sign-extension bug are decided: 8-bit bytes whose
+// sign extension is harmless because every earlier byte of the same 4-byte key word is 0xff.  Length = 3 mod 4 keeps
+// the word alignment when the key (with its NUL) is cycled.
+inline Bytes phrase_bcrypt_8bit() {
+  size_t nblocks = (size_t)pick(1, 18);
+  Bytes o;
+  for (size_t b = 0; b < nblocks; b++) {
+    int k = wpick({4, 3, 2, 2, 1});
+    unsigned char x = (unsigned char)pick(0x80, 0xff), a1 = (unsigned char)pick(0x21, 0x7e), a2 = (unsigned char)pick(0x21, 0x7e), a3 = (unsigned char)pick(0x21, 0x7e), a4 = (unsigned char)pick(0x21, 0x7e);
+    unsigned char w[4];
+    switch (k) {
+      case 0: w[0] = a1; w[1] = a2; w[2] = a3; w[3] = a4; break;
+      case 1: w[0] = 0xff; w[1] = x; w[2] = a1; w[3] = a2; break;
+      case 2: w[0] = 0xff; w[1] = 0xff; w[2] = x; w[3] = a1; break;
+      case 3: w[0] = 0xff; w[1] = 0xff; w[2] = 0xff; w[3] = x; break;
+      default: w[0] = x; w[1] = a1; w[2] = a2; w[3] = a3; break;
+    }
+    size_t n = b + 1 == nblocks ? 3 : 4;
+    o.append((const char *)w, n);
+  }
+  return o;
+}
+
 // ---- valid settings, by construction ---------------------------------------
 struct SOpts {
   bool cheap = true;       // keep cost fields at the cheap end
